@@ -477,8 +477,9 @@ void Adaptation::Icap::Xaction::noteCommRead(const CommIoCbParams &io)
     // case Comm::COMM_ERROR:
     default: // no other flags should ever occur
         debugs(11, 2, io.conn << ": read failure: " << xstrerr(rd.xerrno));
-        mustStop("unknown ICAP I/O read error");
-        return;
+        reuseConnection = false;
+        // an exception (unlike mustStop()) lets ModXact::callException() bypass the failure of an optional service
+        throw TextException("ICAP I/O read error", Here());
     }
 
     handleCommRead(io.size);
